@@ -300,7 +300,11 @@ func C09(c *core.Ctx) error {
 		c.Ev.Distinct("states", s.id+"/"+order)
 		id := s.id + " [map order " + order + "]"
 		replay := map[string]any{"scenario": s.id, "order": order, "files": files, "exit": r.Exit, "stderr": firstN(r.Stderr, 700)}
-		if r.Panicked() || r.TimedOut {
+		if core.ResourceFailure(r) {
+			c.Skip("%s: run timed out or was killed", s.id)
+			return
+		}
+		if r.Panicked() {
 			c.Report("crash:"+s.id, id+": mockery terminated by an unrecovered panic (or hung): "+firstN(r.Stderr, 500), replay)
 			return
 		}
